@@ -643,13 +643,15 @@ def main(ctx):
     outcomes = {}
     opens = {}
     before_request = 0
+    coe = 0
     budget_e = 700 if quick else 6000
 
     def run_client(labels_or_steps, world, transport, seed, tag):
-        nonlocal touched
+        nonlocal touched, coe
         r = drv.replay_client(labels_or_steps, transport=transport,
                               seed=seed, workdir=tlc.WORK, **world)
         nrep['client'] += 1
+        coe += r.get('chan_open_errors', 0)
         for s, (kind, oc) in r['outcomes'].items():
             outcomes[(transport, oc)] = outcomes.get((transport, oc), 0) + 1
         labels = labels_of(labels_or_steps)
@@ -743,6 +745,11 @@ def main(ctx):
         'its own gate were accepted by the client BEFORE any session had '
         'sent auth-agent-req (the client\'s gate is the agent_forwarding '
         'option alone, as in OpenSSH): recorded, not a violation')
+    ctx.notes.append(
+        f'{coe} calls over open_agent_connection() ended with '
+        'ChannelOpenError (the forwarded agent was down) where the direct '
+        'transports raise ValueError: recorded, accepted as the failure of '
+        'that call')
     for d, n in sorted(rep.suppressed.items()):
         ctx.notes.append(f'{n} behaviours touching the reported defect {d} '
                          'end differently from the (repaired) model; the '
